@@ -9,7 +9,8 @@ Decided structural clauses:
  D6 uniform-grid Gram entries as polynomial identities: with h = 2^-l the per-dimension factors are 2h/3 = 1/(3*2^(l-1)) for
     identical hats and h/6 = 1/(12*2^(l-1)) for neighbouring hats, 0 for disjoint supports; the diagonal is the product of the
     first over all dimensions
-Not decided: the non-uniform Gram entries, positive definiteness, agreement of the three hat evaluations (numerical)."""
+ D7 the three hat evaluations count the centre of a hat exactly once (necessary for their agreement on grid points): see sa/hats.py
+Not decided: the non-uniform Gram entries, positive definiteness, agreement of the three hat evaluations beyond D7 (numerical)."""
 import ast
 
 from ..cfg import cfg_of, walk_local
@@ -211,6 +212,9 @@ def run(prog, ctx):
 
     # ------------------------------------------------------------------ D6
     check_uniform_gram(prog, ctx)
+    # ------------------------------------------------------------------ D7
+    from ..hats import check_hat_centre
+    ctx.floor("C16.D7", check_hat_centre(prog, ctx, "C16.D7"), 3, "hat implementations analysed for the centre rule")
 
     # ------------------------------------------------------------------ D5
     for fq in (DE + ".solve_density_estimation", DE + ".solve_density_estimation_dimension_wise"):
